@@ -1,4 +1,4 @@
-CONSTANTS Sizes = {0, 1, 4096, 4097}
+CONSTANTS Sizes = {0, 1, 4096, 4097, 8193}
 Statuses = {200, 204, 304, 404, 100}
 SeqStride = 3
 INIT GenInit
